@@ -116,7 +116,160 @@ def gen_py_value(w, depth=3):
     return {w.choice(gen.KEY_POOL): gen_py_value(w, depth - 1) for _ in range(n)}
 
 
-def gen_workload(w, families=("json", "json", "json", "yaml", "xml", "xml", "csv", "plist", "py"), scale=1):
+# ------------------------------------------------------------------ "ast" family: Python source -> pydiff.ast_to_tree
+# A module is a list of statements in a small JSON IR (so that the generic structural shrinkers give valid smaller
+# modules); rendering is tolerant: whatever a shrinker leaves behind still renders to source of the subset ast_to_tree
+# understands (assignments, calls, attribute chains, subscripts, list/tuple/set/dict displays, `from m import a as b`).
+_AST_NAMES = ["x", "y", "z", "foo", "bar", "cfg"]
+
+
+def _ast_ident(v, default="x"):
+    v = str(v) if isinstance(v, str) else default
+    v = "".join(c for c in v if c.isalnum() or c == "_")
+    if not v or not (v[0].isalpha() or v[0] == "_") or v in ("None", "True", "False"):
+        return default
+    import keyword
+    return v + "_" if keyword.iskeyword(v) else v
+
+
+def ast_expr_src(e, depth=0):
+    if depth > 12:
+        return "0"
+    if e is None or isinstance(e, bool):
+        return repr(e)
+    if isinstance(e, int):
+        return repr(abs(e))                 # no UnaryOp in the subset
+    if isinstance(e, float):
+        return repr(abs(e)) if e == e and abs(e) != float("inf") else "0.5"
+    if isinstance(e, str):
+        return repr(e)
+    if isinstance(e, list):
+        return "[" + ", ".join(ast_expr_src(x, depth + 1) for x in e) + "]"
+    if isinstance(e, dict):
+        if "$name" in e:
+            return _ast_ident(e["$name"])
+        if "$attr" in e:
+            parts = e["$attr"] if isinstance(e["$attr"], list) and e["$attr"] else ["x"]
+            return ".".join(_ast_ident(p_, "a") for p_ in parts)
+        if "$call" in e:
+            f = e["$call"]
+            fs = ast_expr_src(f, depth + 1) if isinstance(f, dict) and ("$name" in f or "$attr" in f or "$call" in f) \
+                else _ast_ident(f, "f")
+            args = [ast_expr_src(x, depth + 1) for x in (e.get("a") if isinstance(e.get("a"), list) else [])]
+            kw = e.get("kw") if isinstance(e.get("kw"), dict) else {}
+            args += [f"{_ast_ident(k, 'k')}={ast_expr_src(v, depth + 1)}" for k, v in kw.items()]
+            return f"{fs}({', '.join(args)})"
+        if "$sub" in e:
+            sv = e["$sub"] if isinstance(e["$sub"], list) and len(e["$sub"]) == 2 else [{"$name": "x"}, 0]
+            base = sv[0] if isinstance(sv[0], dict) and ("$name" in sv[0] or "$attr" in sv[0]) else {"$name": "x"}
+            return f"{ast_expr_src(base, depth + 1)}[{ast_expr_src(sv[1], depth + 1)}]"
+        if "$tuple" in e:
+            xs = e["$tuple"] if isinstance(e["$tuple"], list) else []
+            return "(" + ", ".join(ast_expr_src(x, depth + 1) for x in xs) + ("," if len(xs) == 1 else "") + ")"
+        if "$set" in e:
+            xs = e["$set"] if isinstance(e["$set"], list) and e["$set"] else [0]
+            return "{" + ", ".join(ast_expr_src(x if not isinstance(x, (list, dict)) else 0, depth + 1) for x in xs) + "}"
+        return "{" + ", ".join(f"{str(k)!r}: {ast_expr_src(v, depth + 1)}" for k, v in e.items()) + "}"
+    return "0"
+
+
+def ast_module_src(stmts):
+    lines = []
+    for st in (stmts if isinstance(stmts, list) else [stmts]):
+        if isinstance(st, dict) and st.get("k") == "import":
+            names = st.get("n") if isinstance(st.get("n"), list) and st.get("n") else [["a", ""]]
+            parts = []
+            for nm in names:
+                nm = nm if isinstance(nm, list) and nm else ["a", ""]
+                n0 = _ast_ident(nm[0], "a")
+                as_ = _ast_ident(nm[1], "") if len(nm) > 1 and nm[1] else ""
+                parts.append(n0 + (f" as {as_}" if as_ else ""))
+            mod = ".".join(_ast_ident(p_, "m") for p_ in str(st.get("m") or "m").split("."))
+            lines.append(f"from {mod} import {', '.join(parts)}")
+        elif isinstance(st, dict) and st.get("k") == "assign":
+            ts = st.get("t") if isinstance(st.get("t"), list) and st.get("t") else ["x"]
+            lines.append(" = ".join(_ast_ident(t_) for t_ in ts) + " = " + ast_expr_src(st.get("v")))
+        elif isinstance(st, dict) and "$call" in st:
+            lines.append(ast_expr_src(st))
+        else:
+            lines.append("x = " + ast_expr_src(st))
+    return "\n".join(lines) + "\n"
+
+
+def gen_ast_expr(w, depth):
+    c = w.random()
+    if depth <= 0 or c < 0.3:
+        return w.choice([0, 1, 2, 7, 10, "a", "b", "ab", "x y", None, True, False, 1.5, {"$name": w.choice(_AST_NAMES)}])
+    n = w.choice([0, 1, 2, 3])
+    if c < 0.42:
+        return [gen_ast_expr(w, depth - 1) for _ in range(n)]
+    if c < 0.5:
+        return {"$tuple": [gen_ast_expr(w, depth - 1) for _ in range(n)]}
+    if c < 0.56:
+        return {"$set": sorted(set(w.randrange(6) for _ in range(n + 1)))}
+    if c < 0.68:
+        return {w.choice(["k", "j", "id", "name"]): gen_ast_expr(w, depth - 1) for _ in range(n)}
+    if c < 0.8:
+        return {"$attr": [w.choice(_AST_NAMES)] + [w.choice(["a", "b", "c", "size"]) for _ in range(w.choice([1, 1, 2, 3]))]}
+    if c < 0.88:
+        return {"$sub": [{"$name": w.choice(_AST_NAMES)}, w.choice([0, 1, 2, "k"])]}
+    f = w.choice(["f", "g", "make", {"$attr": ["os", "path", "join"]}, {"$attr": ["cfg", "get"]}])
+    if w.random() < 0.1:
+        f = {"$call": "f", "a": [w.randrange(3)], "kw": {}}
+    return {"$call": f, "a": [gen_ast_expr(w, depth - 1) for _ in range(w.choice([0, 1, 2]))],
+            "kw": {w.choice(["a", "b", "key", "n"]): gen_ast_expr(w, depth - 1) for _ in range(w.choice([0, 0, 1, 2]))}}
+
+
+def gen_ast_stmt(w, depth=3):
+    c = w.random()
+    if c < 0.15:
+        return {"k": "import", "m": w.choice(["m", "a.b", "os.path", "pkg.sub.mod"]),
+                "n": [[w.choice(["a", "b", "c", "join"]), w.choice(["", "", "d", "e"])] for _ in range(w.choice([1, 2, 3]))]}
+    if c < 0.3:
+        e = gen_ast_expr(w, depth)
+        return e if isinstance(e, dict) and "$call" in e else {"$call": "f", "a": [e], "kw": {}}
+    return {"k": "assign", "t": [w.choice(_AST_NAMES) for _ in range(w.choice([1, 1, 1, 2]))], "v": gen_ast_expr(w, depth)}
+
+
+def mutate_ast(w, v, intensity):
+    """A few local changes anywhere in the IR: constants, names, attribute chains, argument lists, statements."""
+    import copy
+    v = copy.deepcopy(v)
+    for _ in range(intensity):
+        # collect (container, key) slots
+        slots = []
+        stack = [v]
+        while stack:
+            c = stack.pop()
+            it = enumerate(c) if isinstance(c, list) else (c.items() if isinstance(c, dict) else ())
+            for k, x in it:
+                slots.append((c, k))
+                if isinstance(x, (list, dict)):
+                    stack.append(x)
+        if not slots:
+            break
+        c, k = slots[w.randrange(len(slots))]
+        x = c[k]
+        r = w.random()
+        if isinstance(c, list) and r < 0.2:
+            del c[k]
+        elif isinstance(c, list) and r < 0.4:
+            c.insert(k, gen_ast_stmt(w, 2) if c is v else gen_ast_expr(w, 1))
+        elif isinstance(x, bool) or x is None:
+            c[k] = w.choice([None, True, False, 0])
+        elif isinstance(x, int):
+            c[k] = x + w.choice([1, 2, 10])
+        elif isinstance(x, str):
+            c[k] = w.choice(["a", "b", "c", "ab", x + "x", x[:-1] or "q"])
+        elif isinstance(x, (list, dict)) and r < 0.6:
+            c[k] = gen_ast_expr(w, 1) if c is not v else gen_ast_stmt(w, 2)
+    if not isinstance(v, list) or not v:
+        v = [gen_ast_stmt(w, 2)]
+    return v
+
+
+def gen_workload(w, families=("json", "json", "json", "json", "json", "json", "yaml", "yaml", "xml", "xml", "xml", "xml",
+                                "csv", "csv", "plist", "plist", "py", "py", "ast"), scale=1):
     """Two documents of one family; the second is a mutation of the first (0.7), independent (0.25) or equal.
     scale=2 (half of the thorough-tier cases) draws deeper and wider documents."""
     fam = w.choice(families)
@@ -151,6 +304,10 @@ def gen_workload(w, families=("json", "json", "json", "yaml", "xml", "xml", "csv
             b = a
         if fam == "plist":
             a, b = gen._plist_clean(a), gen._plist_clean(b)
+    elif fam == "ast":
+        a = [gen_ast_stmt(w, 3 if scale == 1 else 4) for _ in range(w.randint(1, 4))]
+        b = mutate_ast(w, a, w.choice([1, 2, 3, 5])) if rel < 0.75 else \
+            ([gen_ast_stmt(w, 2) for _ in range(w.randint(1, 3))] if rel < 0.95 else a)
     elif fam == "py":
         a = [gen_py_value(w, 3) for _ in range(w.randint(1, 3))]
         b = gen.mutate(w, a, intensity=w.choice([1, 2, 3])) if rel < 0.75 else \
@@ -205,6 +362,10 @@ def build_tree(family, value, opts):
     if family == "py":
         from graphtage import pydiff
         return pydiff.build_tree(py_decode(value), o)
+    if family == "ast":
+        import ast as _ast
+        from graphtage import pydiff
+        return pydiff.ast_to_tree(_ast.parse(ast_module_src(value)), o)
     if family == "xml":
         return gxml.build_tree(gen.xml_element(value), o)
     if family == "csv":
@@ -437,6 +598,7 @@ class Monitor:
         self.multi = 0
         self.site_of = {}        # id(object) -> role-based site name (robust against class renames), e.g. the
         #                          container of a matcher / search session; everything else is named by its class
+        self.by_class = {}       # reach: outermost refinement steps seen per concrete class
         self.default_site = None  # container sessions: every monitored object belongs to the container under test
         self.active = set()      # ids of objects with a tighten_bounds() call in progress
         self.known = set()       # (kind, site) of listed findings
@@ -500,6 +662,8 @@ class Monitor:
 
     def _around(self, obj, orig):
         self.calls += 1
+        cn = type(obj).__name__
+        self.by_class[cn] = self.by_class.get(cn, 0) + 1
         before = after = None
         if self.decide():
             before = self.observe(obj)
